@@ -179,7 +179,7 @@ func (s *SelectStatement) ToStreamConfig() (*types.Config, string, error) {
 	}
 
 	// Build field mapping and expression information
-	aggs, fields, expressions, postAggExpressions, err := buildSelectFieldsWithExpressions(otherFields)
+	aggs, fields, expressions, postAggExpressions, err := buildSelectFieldsWithExpressions(otherFields, needWindow)
 	if err != nil {
 		return nil, "", err
 	}
@@ -1424,7 +1424,7 @@ func parseAggregateExpression(expr string) string {
 }
 
 // Parse field information including expressions with post-aggregation support
-func buildSelectFieldsWithExpressions(fields []Field) (
+func buildSelectFieldsWithExpressions(fields []Field, windowed ...bool) (
 	aggMap map[string]aggregator.AggregateType,
 	fieldMap map[string]string,
 	expressions map[string]types.FieldExpression,
@@ -1492,6 +1492,16 @@ func buildSelectFieldsWithExpressions(fields []Field) (
 					maxArgs := fn.GetMaxArgs()
 					// Function needs multi-parameter handling if it has multiple parameters
 					isMultiParamFunction = minArgs > 1 || (maxArgs > minArgs && minArgs >= 1)
+					// ... but in a windowed (aggregating) query only an aggregate does: there a
+					// scalar function with several arguments (substring(a, 0, 2), round(b, 1))
+					// is an ordinary expression item, not an aggregate type of its own name
+					if len(windowed) > 0 && windowed[0] {
+						switch fn.GetType() {
+						case functions.TypeAggregation, functions.TypeAnalytical, functions.TypeWindow:
+						default:
+							isMultiParamFunction = false
+						}
+					}
 				}
 			}
 
